@@ -1,5 +1,6 @@
 """C01: tie between the REAL index-walking passes of mwlib.parser.refine.core (ParseSections, ParseLines,
-ParseParagraphs, ParseSingleQuote, ParseUrls) and the loop models of coq/C01/Passes.v extracted to ocaml/c01p.
+ParseParagraphs, ParseSingleQuote, ParseUrls, ParsePreformatted) and the loop models of coq/C01/Passes.v and
+coq/C01/PassesPre.v extracted to ocaml/c01p.
 
 `tie(run, src)` generates abstract token lists per pass (exhaustive up to a small length over a per-pass alphabet +
 random longer lists drawn with run.rng), runs the real pass (vt/harness/c01_passes.py) and the extracted model
@@ -16,7 +17,8 @@ from concurrent.futures import ThreadPoolExecutor
 from vt import core
 
 PASSES = [("S", "ParseSections"), ("L", "ParseLines"), ("P", "ParseParagraphs"), ("Q", "ParseSingleQuote"),
-          ("U", "ParseUrls")]
+          ("U", "ParseUrls"), ("F", "ParsePreformatted"),
+          ("C", "TableCellParser"), ("R", "TableRowParser"), ("T", "TableParser")]
 
 ALPHABET = {
     "S": ["o", "s1", "s2", "s3", "e1", "e2", "e3", "n"],
@@ -24,6 +26,10 @@ ALPHABET = {
     "P": ["o", "b", "B", "n"],
     "Q": ["o", "n", "q2", "q3", "q4", "q5"],
     "U": ["o", "u", "]", "2", "n"],
+    "F": ["o", "w", "n", "B", "Dd", "Ds"],
+    "C": ["o", "|1", "!1", "|2", "td", "/td", "|", "+"],
+    "R": ["o", "n", "r", "tr", "/tr", "|1", "td", "|"],
+    "T": ["o", "n", "{", "tb", "}", "r", "|1", "+"],
 }
 # extra symbols only used by the random lists
 EXTRA = {
@@ -32,6 +38,10 @@ EXTRA = {
     "P": [],
     "Q": ["q6", "q7"],            # not q1: the tokenizer never emits it and compute_path raises ValueError on it
     "U": [],
+    "F": ["F", "Dq", "Dt", "Dl"],
+    "C": ["!2", "|!", "th", "/th", "[[", "n", "_"],
+    "R": ["b", "!1", "|2", "!2", "|!", "th", "/td", "/th", "+", "[[", "_"],
+    "T": ["b", "_", "/table", "tr", "/tr", "!1", "|2", "td", "/td", "|", "[[", "ref"],
 }
 # hand-picked lists: prefixes outside ":*#;" (AttributeError ~ PAttr), empty prefixes, "=" counts of 0, ...
 FIXED = {
@@ -43,17 +53,30 @@ FIXED = {
     "P": ["b", "B b B"],
     "Q": ["q2", "q2 n q3", "q3 q2 q5 q2 q3", "q3 q5 n q3 q5 n q3 q5 n q3 q5 n q3 q5 n q3 q5 n"],
     "U": ["2 u 2 2", "u u ] ]"],
+    # " a\n b\n" (merged into one node), a pre-existing preformatted node before a " " line, tags that end a " " line or not
+    "C": ["|1 o | o |2 o !1 o !2 o |! o", "td o /td o th o /th o", "|1 [[ | o", "|1 o + o | o", "!1 o |2 o td o |2 o", "/td |1 /td /td",
+          "|1 + + | o |2 + [[ | o"],
+    "R": ["r o n |1 o |2 o n r n |1 o", "tr td o /td /tr o", "|1 o r o n |1 o /tr o", "r o |1 o", "r n r n r", "tr o n td o tr /tr /tr",
+          "|1 o |2 o /tr r o n !1 o"],
+    "T": ["{ o n r n |1 o n }", "{ o }", "{ }", "{ { } }", "{ n + o | o n r n |1 o n }", "{ n + [[ o | o n }", "{ n + o | o | o n r }",
+          "tb tr td o /td /tr /table", "{ {", "{ o { o n", "} { n _ + ref o n r }", "{ n _ n + o r n }", "{ n o + o n }", "{ + o",
+          "{ n + o n } { n + o n", "tb + o n /table"],
+    "F": ["w o n w o n", "F w o n", "F o w o n", "w F n", "w w n n", "w Dq n w Dt n w Dl n w Dd n w Ds n", "n w n n w n w",
+          "w o n o w o n w o n B w o n"],
 }
 # exhaustive up to this length / number of random lists / (min, max) random length
 SIZES = {
     "quick": {"S": (4, 250, (5, 60)), "L": (3, 250, (4, 60)), "P": (6, 200, (7, 60)), "Q": (4, 200, (5, 50)),
-              "U": (5, 250, (6, 60))},
+              "U": (5, 250, (6, 60)), "F": (4, 250, (5, 60)),
+              "C": (3, 250, (4, 60)), "R": (3, 250, (4, 60)), "T": (3, 250, (4, 60))},
     "thorough": {"S": (5, 6000, (6, 2000)), "L": (4, 6000, (5, 1500)), "P": (8, 4000, (9, 2000)),
-                 "Q": (6, 4000, (7, 300)), "U": (7, 6000, (8, 2000))},
+                 "Q": (6, 4000, (7, 300)), "U": (7, 6000, (8, 2000)), "F": (6, 6000, (7, 2000)),
+                 "C": (5, 6000, (6, 1500)), "R": (5, 6000, (6, 1500)), "T": (5, 6000, (6, 1500))},
 }
 EXC_KIND = {"IndexError": "PIndex", "ValueError": "PValue", "AttributeError": "PAttr", "TypeError": "PType"}
 FUEL = {"S": lambda n: 2 * n + 1, "L": lambda n: 4 * n + 1, "P": lambda n: 2 * n + 1, "Q": lambda n: 2 * n + 1,
-        "U": lambda n: 3 * n + 1}            # mirrors X_fuel of Passes.v; only used when the model raises
+        "U": lambda n: 3 * n + 1, "F": lambda n: n + 1,
+        "C": lambda n: n + 1, "R": lambda n: n + 1, "T": lambda n: 2 * n + 1}   # mirrors X_fuel of Passes*.v; only used when the model raises
 
 
 def build():
